@@ -268,6 +268,7 @@ def build():
     u.add(prelude.INT)
     u.add(u.consts(K + 'config_snapshot.rs', names=['CONN_TIMEOUT_MS_MIN', 'CONN_TIMEOUT_MS_MAX', 'STALL_MIN_IN_FLIGHT_PACKETS', 'STALL_ACK_STALE_MS']))
     u.add('pub const CONN_TIMEOUT_MS: u64 = 5000;   // srtla_protocol::CONN_TIMEOUT * 1000 (value checked in unit core)\n')
+    u.const_names.add('CONN_TIMEOUT_MS')
     u.add(u.item(K + 'mode.rs', 'enum', 'SchedulingMode'))
     u.add(impl_block('SchedulingMode', [
         u.fn(K + 'mode.rs', 'as_u8', impl='SchedulingMode', ret='r', ensures=[C('C18.ctl.mode.as_u8', 'r == (if self is Classic { 0u8 } else { 1u8 })')]),
@@ -275,6 +276,10 @@ def build():
         u.fn(K + 'mode.rs', 'from_u8', impl='SchedulingMode', ret='r', ensures=[C('C18.ctl.mode.from_u8_total_and_inverse', 'r == (if value == 0 { SchedulingMode::Classic } else { SchedulingMode::Enhanced })')]),
     ]))
     u.add(u.item(K + 'config_snapshot.rs', 'struct', 'ConfigSnapshot'))
+    u.add(impl_block('ConfigSnapshot', [
+        u.fn(K + 'config_snapshot.rs', 'effective_quality_enabled', impl='ConfigSnapshot', ret='r',
+             ensures=['r == (self.quality_enabled && !(self.mode is Classic))']),
+    ]))
     u.add(u.item(CF, 'struct', 'DynamicConfig', post=lambda t: _noderive(_seq_cells(t))))
     u.add(u.consts(CT, names=['PARSE_ERROR', 'INVALID_REQUEST', 'METHOD_NOT_FOUND', 'INVALID_PARAMS', 'INTERNAL_ERROR']))
     u.add("pub const JSONRPC_VERSION: &'static str = \"2.0\";\n")
@@ -307,8 +312,8 @@ def build():
     ]))
 
     u.add(impl_block('Response', [
-        u.fn(CT, 'ok', impl='Response', ret='r', ensures=[C('C18.ctl.response.ok_has_result_and_no_error', 'r.id == id && r.result == Some(result) && r.error is None')]),
-        u.fn(CT, 'err', impl='Response', ret='r', ensures=[C('C18.ctl.response.err_has_error_and_no_result', 'r.id == id && r.result is None && r.error == Some(err)')]),
+        u.fn(CT, 'ok', impl='Response', ret='r', post_rewrite=[('Value::Null', 'value_null()', None)], ensures=[C('C18.ctl.response.ok_has_result_and_no_error', 'r.id == id && r.result == Some(result) && r.error is None')]),
+        u.fn(CT, 'err', impl='Response', ret='r', post_rewrite=[('Value::Null', 'value_null()', None)], ensures=[C('C18.ctl.response.err_has_error_and_no_result', 'r.id == id && r.result is None && r.error == Some(err)')]),
     ]))
 
 
